@@ -15,6 +15,9 @@ import (
 // paths enumerates paths of fn; an enumeration failure is recorded as an
 // undecided obligation of rule.
 func (c *Ctx) paths(rule string, fn *ssa.Function, opts an.PathOpts) []*an.Path {
+	if opts.InlinePaths == nil {
+		opts.InlinePaths = c.helperInline(fn)
+	}
 	ps, err := c.X.Paths(fn, opts)
 	if err != nil {
 		c.R.Undecided(rule, "paths:"+c.fname(fn), c.fname(fn), c.pos(fn.Pos()), err.Error())
@@ -24,6 +27,9 @@ func (c *Ctx) paths(rule string, fn *ssa.Function, opts an.PathOpts) []*an.Path 
 
 // pathsO enumerates paths with every call kept opaque.
 func (c *Ctx) pathsO(rule string, fn *ssa.Function, opts an.PathOpts) []*an.Path {
+	if opts.InlinePaths == nil {
+		opts.InlinePaths = c.helperInline(fn)
+	}
 	ps, err := c.XO.Paths(fn, opts)
 	if err != nil {
 		c.R.Undecided(rule, "paths:"+c.fname(fn), c.fname(fn), c.pos(fn.Pos()), err.Error())
@@ -131,120 +137,18 @@ func flip(op token.Token) token.Token {
 	return op
 }
 
-// metricEmits returns the metric emissions (field name → instructions) executed on a path.
-// A call to a small module-local helper that emits the same metrics on each of
-// its return paths counts as those emissions (the call instruction stands for them).
+// metricEmits returns the metric emissions (field name → instructions) executed on a path
+// (emissions inside helpers are visible because helpers are enumerated in line).
 func metricEmits(p *an.Path) map[string][]ssa.CallInstruction {
 	out := map[string][]ssa.CallInstruction{}
 	p.Instrs(func(in ssa.Instruction) {
-		ci, ok := in.(ssa.CallInstruction)
-		if !ok {
-			return
-		}
-		if name, ok := an.MetricCall(ci.Common()); ok {
-			out[name] = append(out[name], ci)
-			return
-		}
-		if callee := an.StaticCallee(ci.Common()); callee != nil && load.InModule(callee) {
-			for name, n := range emissionSummary(callee, 0) {
-				for i := 0; i < n; i++ {
-					out[name] = append(out[name], ci)
-				}
+		if ci, ok := in.(ssa.CallInstruction); ok {
+			if name, ok := an.MetricCall(ci.Common()); ok {
+				out[name] = append(out[name], ci)
 			}
 		}
 	})
 	return out
-}
-
-var emitSummaries = map[*ssa.Function]map[string]int{}
-
-// emissionSummary returns the metric emissions a loop-free helper performs on
-// every return path (nil when paths differ, the helper loops, or it emits nothing).
-func emissionSummary(fn *ssa.Function, depth int) map[string]int {
-	if s, ok := emitSummaries[fn]; ok {
-		return s
-	}
-	emitSummaries[fn] = nil
-	if fn.Blocks == nil || depth > 2 || !inlineLoopFree(fn) || len(fn.Blocks) > 12 {
-		return nil
-	}
-	// quick reject: no metric call reachable syntactically
-	any := false
-	for _, b := range fn.Blocks {
-		for _, in := range b.Instrs {
-			if ci, ok := in.(ssa.CallInstruction); ok {
-				if _, ok := an.MetricCall(ci.Common()); ok {
-					any = true
-				}
-				if callee := an.StaticCallee(ci.Common()); callee != nil && callee != fn && load.InModule(callee) && emissionSummary(callee, depth+1) != nil {
-					any = true
-				}
-			}
-		}
-	}
-	if !any {
-		return nil
-	}
-	var common map[string]int
-	first := true
-	okAll := true
-	// enumerate block paths (no SEE needed)
-	var walk func(b *ssa.BasicBlock, acc map[string]int, seen map[*ssa.BasicBlock]bool)
-	walk = func(b *ssa.BasicBlock, acc map[string]int, seen map[*ssa.BasicBlock]bool) {
-		if seen[b] {
-			okAll = false
-			return
-		}
-		seen[b] = true
-		defer delete(seen, b)
-		cur := map[string]int{}
-		for k, v := range acc {
-			cur[k] = v
-		}
-		for _, in := range b.Instrs {
-			if ci, ok := in.(ssa.CallInstruction); ok {
-				if name, ok := an.MetricCall(ci.Common()); ok {
-					cur[name]++
-				} else if callee := an.StaticCallee(ci.Common()); callee != nil && callee != fn && load.InModule(callee) {
-					for k, v := range emissionSummary(callee, depth+1) {
-						cur[k] += v
-					}
-				}
-			}
-		}
-		if len(b.Succs) == 0 {
-			if _, isRet := b.Instrs[len(b.Instrs)-1].(*ssa.Return); !isRet {
-				return // panic exit
-			}
-			if first {
-				common, first = cur, false
-			} else if !sameCounts(common, cur) {
-				okAll = false
-			}
-			return
-		}
-		for _, s := range b.Succs {
-			walk(s, cur, seen)
-		}
-	}
-	walk(fn.Blocks[0], map[string]int{}, map[*ssa.BasicBlock]bool{})
-	if !okAll || len(common) == 0 {
-		return nil
-	}
-	emitSummaries[fn] = common
-	return common
-}
-
-func sameCounts(a, b map[string]int) bool {
-	if len(a) != len(b) {
-		return false
-	}
-	for k, v := range a {
-		if b[k] != v {
-			return false
-		}
-	}
-	return true
 }
 
 // callsOnPath returns calls on the path for which pred holds.
@@ -338,5 +242,30 @@ func (c *Ctx) opaque(fns ...*ssa.Function) func() {
 		for _, f := range added {
 			delete(c.X.NoInline, f)
 		}
+	}
+}
+
+// helperInline is the default InlinePaths policy when enumerating root.
+func (c *Ctx) helperInline(root *ssa.Function) func(*ssa.Function) bool {
+	return func(f *ssa.Function) bool {
+		if f == root || f.Blocks == nil || !load.InModule(f) {
+			return false
+		}
+		base := f
+		for base.Parent() != nil {
+			base = base.Parent()
+		}
+		if o := base.Origin(); o != nil {
+			base = o
+		}
+		name := load.FuncName(base)
+		if f.Parent() != nil {
+			// closures are inlined when called directly (e.g. a local dispatch helper)
+			return true
+		}
+		if strings.HasSuffix(name, "$bound") || strings.HasSuffix(name, "$thunk") {
+			return true
+		}
+		return !anchorFuncs[name]
 	}
 }
